@@ -3099,23 +3099,10 @@ func (pc *persistConn) writeRequest(r *http.Request, w io.Writer, usingProxy boo
 	// The server can (and will, if it's a net/http server) reject
 	// the request if it doesn't consider the host valid.
 	if !httpguts.ValidHostHeader(host) {
-		// Historically, we would truncate the Host header after '/' or ' '.
-		// Some users have relied on this truncation to convert a network
-		// address such as Unix domain socket path into a valid, ignored
-		// Host header (see https://go.dev/issue/61431).
-		//
-		// We don't preserve the truncation, because sending an altered
-		// header field opens a smuggling vector. Instead, zero out the
-		// Host header entirely if it isn't valid. (An empty Host is valid;
-		// see RFC 9112 Section 3.2.)
-		//
-		// Return an error if we're sending to a proxy, since the proxy
-		// probably can't do anything useful with an empty Host header.
-		if !usingProxy {
-			host = ""
-		} else {
-			return errors.New("http: invalid Host header")
-		}
+		// Sending an altered (truncated or emptied) Host header instead of the one
+		// the caller asked for opens a smuggling vector and hides the mistake;
+		// refuse the request, as the HTTP/2 and HTTP/3 writers do.
+		return errors.New("http: invalid Host header")
 	}
 
 	// According to RFC 6874, an HTTP client, proxy, or other
